@@ -252,6 +252,9 @@ func inFold(n *specNode, d *Decl) bool {
 }
 
 var envAfter *EnvState
+
+// withSub: the worlds of the current case address a sub-command behind the application's own arguments
+var withSub bool
 var preArgv []string
 var preConv bool
 
@@ -285,6 +288,11 @@ func runWorldBudget(ds *DeclSet, spec string, argv []string, env EnvState, budge
 	preBad := false
 	env.Apply()
 	root := &CmdDecl{Name: "app", Spec: spec, Decls: ds.All(), Action: CB{Kind: CBReturn}}
+	if withSub {
+		// the application's own arguments are followed by a sub-command that declares nothing: accepted = its Action ran
+		root.Subs = []*CmdDecl{{Name: "zsub", Desc: "declares nothing", Action: CB{Kind: CBReturn}}}
+		argv = append(append([]string{}, argv...), "zsub")
+	}
 	app := &AppDecl{Root: root, Policy: flag.ContinueOnError}
 	app.Finish()
 	p := NewProc(0)
@@ -321,6 +329,12 @@ func runWorldBudget(ds *DeclSet, spec string, argv []string, env EnvState, budge
 
 func (c12Prop) Exec(cc Case, st *Stats) *Violation {
 	c := cc.(*c12Case)
+	// one case in four (a function of the spec, not a draw): the same arguments in front of a sub-command
+	withSub = fnv64("sub|"+c.Spec)%4 == 0
+	defer func() { withSub = false }()
+	if withSub {
+		st.Count("reach.own_arguments_in_front_of_a_sub_command")
+	}
 	a := runWorld(c.DS, c.Spec, c.Argv, EnvState{})
 	st.Evals++
 	st.Count("mode." + c.Mode)
